@@ -123,6 +123,8 @@
   (ite ((_ is nil) l) (TAtom "[]") (TFun "." (cons (hd l) (cons (mklist (tl l)) nil)))))
 ; number of positional parameters of a function value (inspect.signature, A-EXT-INSPECT)
 (declare-fun nparams (Int) Int)
+; an opaque Python object (a value produced by user code) may be None: unknown, but the same answer for the same object
+(declare-fun any_none (Int) Bool)
 (assert (forall ((f Int)) (! (>= (nparams f) 0) :pattern ((nparams f)))))
 ; recursion depth of the running interpreter (ghost): sys.setrecursionlimit(n) raises iff n <= depth
 (declare-fun rdepth () Int)
